@@ -77,6 +77,49 @@ theorem sxp_logpdf {x μ l τ : ℝ} (hl : 0 < l) (hτ : 0 < τ) (hx : μ ≤ x)
   · rw [log_mul (div_ne_zero hlt (exp_ne_zero _)) (exp_ne_zero _), log_div hlt (exp_ne_zero _),
       log_mul (ne_of_gt hl) (ne_of_gt hτ), log_exp, log_exp]; ring
 
+/-! ## closed forms of the densities, up to the `LogGamma` symbol -/
+
+/-- gamma density on the interior of the support: `pdf · e^{LogGamma τ} = λ^τ (x−μ)^{τ−1} e^{−λ(x−μ)}` (the textbook
+    density times `Γ(τ)`); what `esl_stats_LogGamma` approximates (`log Γ`) is L0 -/
+theorem gam_pdf_closed {x μ l τ : ℝ} (hl : 0 < l) (hx : μ < x) :
+    esl_gam_pdf x μ l τ * exp (Num.logGamma τ) = l ^ τ * (x - μ) ^ (τ - 1) * exp (-(l * (x - μ))) := by
+  have hy : 0 < l * (x - μ) := mul_pos hl (by linarith)
+  have hxm : 0 < x - μ := by linarith
+  unfold esl_gam_pdf
+  simp only [lit_zero, lit_one, num_log, num_exp, num_eqb]
+  rw [if_neg (not_lt.mpr hy.le), if_neg (ne_of_gt hx)]
+  rw [Real.rpow_def_of_pos hl, Real.rpow_def_of_pos hxm, ← exp_add, ← exp_add, ← exp_add]
+  congr 1; ring
+
+/-- stretched-exponential density on the interior of the support: `pdf · e^{LogGamma(1/τ)} = λ τ e^{−(λ(x−μ))^τ}` -/
+theorem sxp_pdf_closed {x μ l τ : ℝ} (hl : 0 < l) (hx : μ < x) :
+    esl_sxp_pdf x μ l τ * exp (Num.logGamma (1 / τ)) = l * τ * exp (-(l * (x - μ)) ^ τ) := by
+  have hy : 0 < l * (x - μ) := mul_pos hl (by linarith)
+  unfold esl_sxp_pdf
+  simp only [lit_one, num_log, num_exp, num_eqb]
+  rw [if_neg (not_lt.mpr hx.le), if_neg (ne_of_gt hx), Real.rpow_def_of_pos hy]
+  have he : exp (Num.logGamma (1 / τ)) ≠ 0 := exp_ne_zero _
+  field_simp
+
+/-! ## `esl_stats_IncompleteGamma`: what needs no analysis -/
+
+/-- the C function throws `eslERANGE` for `a ≤ 0` or `x < 0` (the model yields `none`) -/
+theorem realIncGamma_range_error {a x : ℝ} (h : a ≤ 0 ∨ x < 0) : realIncGamma a x = none := by
+  unfold realIncGamma Special.incGamma
+  rcases h with h | h
+  · simp only [lit_zero]; rw [if_pos h]
+  · simp only [lit_zero]; split_ifs <;> rfl
+
+/-- a result implies valid arguments; which of the two it forms as `1 −` the other depends on the branch `x > a + 1` -/
+theorem realIncGamma_branches {a x P Q : ℝ} (h : realIncGamma a x = some (P, Q)) :
+    0 < a ∧ 0 ≤ x ∧ P + Q = 1 ∧ (a + 1 < x → P = 1 - Q) ∧ (¬ a + 1 < x → Q = 1 - P) := by
+  have hs := realIncGamma_sum h
+  refine ⟨?_, ?_, hs, fun _ => by linarith, fun _ => by linarith⟩
+  · by_contra hc
+    rw [realIncGamma_range_error (Or.inl (not_lt.mp hc))] at h; exact absurd h (by simp)
+  · by_contra hc
+    rw [realIncGamma_range_error (Or.inr (not_le.mp hc))] at h; exact absurd h (by simp)
+
 /-! ## normal -/
 theorem normal_cdf_add_surv (herfc : ∀ t : ℝ, Num.erfc (-t) = 2 - Num.erfc t) (x μ σ : ℝ) :
     esl_normal_cdf x μ σ + esl_normal_surv x μ σ = 1 := by
